@@ -27,6 +27,12 @@ fn param(defref: &str, value: &str) -> Node {
         .child(Node::new("VALUE").text(Val::Str(value.into())))
 }
 
+fn tparam(defref: &str, value: &str) -> Node {
+    Node::new("ECUC-TEXTUAL-PARAM-VALUE")
+        .child(Node::new("DEFINITION-REF").attr("DEST", Val::Enum("ECUC-ENUMERATION-PARAM-DEF".into())).text(Val::Str(defref.into())))
+        .child(Node::new("VALUE").text(Val::Str(value.into())))
+}
+
 fn masters() -> Vec<(&'static str, Node)> {
     let m1 = Node::new("AUTOSAR").child(
         Node::new("AR-PACKAGES")
@@ -59,7 +65,7 @@ fn masters() -> Vec<(&'static str, Node)> {
     let m4 = Node::new("AUTOSAR").child(Node::new("AR-PACKAGES").child(named("AR-PACKAGE", "p").child(Node::new("ELEMENTS").child(named("SYSTEM", "s")).child(named("CAN-CLUSTER", "c")).child(named("CAN-CLUSTER", "c10")))));
     let m5 = Node::new("AUTOSAR").child(
         Node::new("AR-PACKAGES").child(named("AR-PACKAGE", "q").child(Node::new("ELEMENTS").child(
-            named("ECUC-MODULE-CONFIGURATION-VALUES", "cfg").child(Node::new("CONTAINERS").child(named("ECUC-CONTAINER-VALUE", "k").child(Node::new("PARAMETER-VALUES").child(param("/d/b", "2")).child(param("/d/a", "1"))))),
+            named("ECUC-MODULE-CONFIGURATION-VALUES", "cfg").child(Node::new("CONTAINERS").child(named("ECUC-CONTAINER-VALUE", "k").child(Node::new("PARAMETER-VALUES").child(tparam("/d/t", "T")).child(param("/d/b", "2")).child(param("/d/a", "1")).child(tparam("/d/u", "U"))))),
         ))),
     );
     // an element kind that exists from R19-11 (00048 ... mask 1e0000 = 00050 on) only: it can only live in the newer file
